@@ -26,6 +26,7 @@ N = job['N']
 ISIFACE = job['isiface']          # index 0 -> node 1
 ROOTX = job['root_explicit']
 PROP = job['prop']
+VALID_ONLY = bool(job.get('valid_only'))
 PROPS = {'C02', 'C03', 'C15'} if PROP == 'C10' else {PROP}
 evaluations = 0
 mismatches = []
@@ -152,7 +153,7 @@ def check(w, bases, obs, ctx):
         spec = w.obj[n]
         sro = [w.ident(x) for x in spec.__sro__]
         iro = [w.ident(x) for x in spec.__iro__]
-        cons = fget(obs['cons'], n)
+        cons = fget(obs['cons'], n) and not VALID_ONLY
         exp = fget(obs['sro'], n)
         if 'C02' in PROPS:
             evaluations += 1
@@ -196,6 +197,8 @@ def check(w, bases, obs, ctx):
             eiro = [x for x in sro if x == 0 or w.kind.get(x) == 'iface']
             if iro != eiro:
                 mism(ctx, '__iro__ n=%d' % n, eiro, iro)
+            if VALID_ONLY:
+                continue
             try:
                 ro_mod.ro(spec, strict=True)
                 raised = False
@@ -351,7 +354,7 @@ def mro_guard(case):
 if job['mode'] == 'dag':
     for ci, case in enumerate(job['cases']):
         childlib.CASE[0] = ci
-        if 'C03' in PROPS:
+        if 'C03' in PROPS and not VALID_ONLY:
             mro_guard(case)
         for build in ('ctor', 'assign'):
             w = World(case['defA'], case['bases'], build)
